@@ -75,28 +75,33 @@ def Graph.merge (σ : List Nat) (ε : Edge → List Include) (g : Graph) : Excep
 
 /-! ### Topological orders -/
 
-def indexOf (v : Nat) : List Nat → Nat
-  | [] => 0
-  | x :: r => if x = v then 0 else indexOf v r + 1
+/-- no edge goes from a later element of the list to an earlier one -/
+def noBackEdge (g : Graph) : List Nat → Bool
+  | [] => true
+  | a :: r => r.all (fun b => g.edges.all (fun e => !(e.src == b && e.dst == a))) && noBackEdge g r
 
-/-- `σ` lists every vertex exactly once and every edge goes forward -/
+def nodupB : List Nat → Bool
+  | [] => true
+  | a :: r => !r.contains a && nodupB r
+
+/-- `σ` lists every vertex exactly once, every edge joins two different listed vertices
+and goes forward -/
 def isTopoB (g : Graph) (σ : List Nat) : Bool :=
-  σ.length == g.verts.length && g.ids.all (fun v => σ.contains v) && σ.all (fun v => g.ids.contains v)
-    && g.edges.all (fun e => σ.contains e.src && σ.contains e.dst && decide (indexOf e.src σ < indexOf e.dst σ))
+  nodupB σ && g.ids.all (fun v => σ.contains v) && σ.all (fun v => g.ids.contains v)
+    && g.edges.all (fun e => σ.contains e.src && σ.contains e.dst && e.src != e.dst)
+    && noBackEdge g σ
+
+/-- topological order as a proposition (what the theorems assume of `σ`) -/
+structure IsTopo (g : Graph) (σ : List Nat) : Prop where
+  nodup : σ.Nodup
+  ends : ∀ e ∈ g.edges, e.src ∈ σ ∧ e.dst ∈ σ ∧ e.src ≠ e.dst
+  forward : σ.Pairwise (fun a b => ∀ e ∈ g.edges, ¬ (e.src = b ∧ e.dst = a))
 
 /-! ### The canonical order: `graph.StableTopologicalSort(g, a < b)`
 
 Kahn's algorithm with a FIFO queue; the initial queue and every frontier (vertices whose
 last predecessor was just removed) are sorted by the vertex key.  File ids are numbered
 in the order of their locations, so `<` on ids is `<` on the keys. -/
-
-def insertSorted (x : Nat) : List Nat → List Nat
-  | [] => [x]
-  | y :: r => if x ≤ y then x :: y :: r else y :: insertSorted x r
-
-def sortNat : List Nat → List Nat
-  | [] => []
-  | x :: r => insertSorted x (sortNat r)
 
 /-- predecessor sets: vertex ↦ sources of its incoming edges -/
 def predSets (g : Graph) : List (Nat × List Nat) :=
@@ -121,13 +126,9 @@ def canonicalOrder (g : Graph) : List Nat :=
 (declaration order) -/
 def canonicalEps : Edge → List Include := fun e => e.incs
 
-/-- predecessor edges in canonical order (by source key; stable) -/
-def insEdge (e : Edge) : List Edge → List Edge
-  | [] => [e]
-  | f :: r => if e.src ≤ f.src then e :: f :: r else f :: insEdge e r
+/-- canonical order of edges: by (source, target) key -/
+def edgeLe (e f : Edge) : Bool := decide (e.src < f.src ∨ (e.src = f.src ∧ e.dst ≤ f.dst))
 
-def sortEdgesBySrc : List Edge → List Edge
-  | [] => []
-  | e :: r => insEdge e (sortEdgesBySrc r)
+def sortEdges : List Edge → List Edge := sortBy edgeLe
 
 end TaskModel.Load
